@@ -391,3 +391,15 @@ def c08_list_restructure(case, rr, doc_regex=None):
     structural = {"ul", "/ul", "ol", "/ol", "li", "/li", "p", "/p"}
     content = lambda fp: [x for x in fp if not (isinstance(x, str) and x in structural)]
     return bool(b) and b != a and content(b) == content(a)
+
+
+@matcher
+def c16_temp_left_after_error(case, rr):
+    """a temporary file is left behind, and at least one entry point failed on this document
+    (parser / plugin error): the clean-up is skipped on the error path"""
+    obs = rr.get("observed") or {}
+    v = obs.get("violations") or []
+    if not v or any(x["kind"] != "temp-file-left" for x in v):
+        return False
+    routes = obs.get("routes") or {}
+    return any(val is None for val in routes.values())
